@@ -617,8 +617,21 @@ func (f *Flooder) WithdrawLocalRoutes() {
 	}
 }
 
+// replayKey identifies the announcement a group of learned routes came from.
+// Routes we originate ourselves are collected under sequence 0 and announced
+// under a fresh sequence number of our own.
+type replayKey struct {
+	origin   identity.AgentID
+	sequence uint64
+}
+
 // SendFullTable sends the full routing table to a newly connected peer.
-// Routes are grouped by origin agent and sent with their original path preserved.
+// Learned routes are replayed per original announcement (origin agent and
+// sequence number) with their path preserved and, importantly, under the
+// ORIGIN's sequence number: a replay is a relayed copy of what the origin
+// said, not a newer statement. Numbering replays from our own counter would
+// let them outrank the origin's later genuine announcements at the receiver.
+// Our own routes are sent as a regular announcement under a fresh sequence.
 // Includes CIDR, domain, forward, and agent presence routes.
 func (f *Flooder) SendFullTable(peerID identity.AgentID) {
 	fullRoutes := f.routeMgr.GetFullRoutesForAdvertise(peerID)
@@ -630,44 +643,55 @@ func (f *Flooder) SendFullTable(peerID identity.AgentID) {
 		return
 	}
 
-	// Group CIDR routes by origin agent
-	byOrigin := make(map[identity.AgentID][]*routing.Route)
-	for _, route := range fullRoutes {
-		byOrigin[route.OriginAgent] = append(byOrigin[route.OriginAgent], route)
+	keyFor := func(origin identity.AgentID, sequence uint64) replayKey {
+		if origin == f.localID {
+			return replayKey{origin: origin}
+		}
+		return replayKey{origin: origin, sequence: sequence}
 	}
 
-	// Group agent presence routes by origin agent
-	agentByOrigin := make(map[identity.AgentID][]*routing.AgentRoute)
+	// Group CIDR routes by originating announcement
+	byOrigin := make(map[replayKey][]*routing.Route)
+	for _, route := range fullRoutes {
+		k := keyFor(route.OriginAgent, route.Sequence)
+		byOrigin[k] = append(byOrigin[k], route)
+	}
+
+	// Group agent presence routes by originating announcement
+	agentByOrigin := make(map[replayKey][]*routing.AgentRoute)
 	for _, route := range agentRoutes {
 		// Don't send routes learned from the peer we're sending to
 		if route.NextHop == peerID {
 			continue
 		}
-		agentByOrigin[route.OriginAgent] = append(agentByOrigin[route.OriginAgent], route)
+		k := keyFor(route.OriginAgent, route.Sequence)
+		agentByOrigin[k] = append(agentByOrigin[k], route)
 	}
 
-	// Group forward routes by origin agent
-	forwardByOrigin := make(map[identity.AgentID][]*routing.ForwardRoute)
+	// Group forward routes by originating announcement
+	forwardByOrigin := make(map[replayKey][]*routing.ForwardRoute)
 	for _, route := range forwardRoutes {
 		// Don't send routes learned from the peer we're sending to
 		if route.NextHop == peerID {
 			continue
 		}
-		forwardByOrigin[route.OriginAgent] = append(forwardByOrigin[route.OriginAgent], route)
+		k := keyFor(route.OriginAgent, route.Sequence)
+		forwardByOrigin[k] = append(forwardByOrigin[k], route)
 	}
 
-	// Group domain routes by origin agent
-	domainByOrigin := make(map[identity.AgentID][]*routing.DomainRoute)
+	// Group domain routes by originating announcement
+	domainByOrigin := make(map[replayKey][]*routing.DomainRoute)
 	for _, route := range domainRoutes {
 		// Don't send routes learned from the peer we're sending to
 		if route.NextHop == peerID {
 			continue
 		}
-		domainByOrigin[route.OriginAgent] = append(domainByOrigin[route.OriginAgent], route)
+		k := keyFor(route.OriginAgent, route.Sequence)
+		domainByOrigin[k] = append(domainByOrigin[k], route)
 	}
 
-	// Collect all origin agents
-	allOrigins := make(map[identity.AgentID]struct{})
+	// Collect all announcements to replay
+	allOrigins := make(map[replayKey]struct{})
 	for id := range byOrigin {
 		allOrigins[id] = struct{}{}
 	}
@@ -681,14 +705,21 @@ func (f *Flooder) SendFullTable(peerID identity.AgentID) {
 		allOrigins[id] = struct{}{}
 	}
 
-	// Send a separate advertisement for each origin
-	for originAgent := range allOrigins {
-		seq := f.routeMgr.IncrementSequence()
+	// Send a separate advertisement for each original announcement
+	for key := range allOrigins {
+		originAgent := key.origin
 
-		cidrRoutes := byOrigin[originAgent]
-		agentPresenceRoutes := agentByOrigin[originAgent]
-		forwardOriginRoutes := forwardByOrigin[originAgent]
-		domainOriginRoutes := domainByOrigin[originAgent]
+		// Learned routes keep the origin's sequence number; only our own
+		// routes are announced under a new sequence number of ours.
+		seq := key.sequence
+		if originAgent == f.localID {
+			seq = f.routeMgr.IncrementSequence()
+		}
+
+		cidrRoutes := byOrigin[key]
+		agentPresenceRoutes := agentByOrigin[key]
+		forwardOriginRoutes := forwardByOrigin[key]
+		domainOriginRoutes := domainByOrigin[key]
 
 		routes := make([]protocol.Route, 0, len(cidrRoutes)+len(agentPresenceRoutes)+len(forwardOriginRoutes)+len(domainOriginRoutes))
 		for _, r := range cidrRoutes {
